@@ -4,7 +4,7 @@ import os
 import sys
 
 sys.path.insert(0, os.path.dirname(os.path.dirname(os.path.abspath(__file__))))
-from vlib import covmon, genmon, schemes
+from vlib import covmon, gadata, genmon, schemes
 from vlib.common import Check, Rng, main_guard, arg_value
 
 
@@ -48,14 +48,29 @@ def spec_lines(chk, quick, frac):
     return lines, skipped
 
 
+def ga_lines(seed):
+    """BxDecay0-only gA modes 21-24 through decay0_generator on synthetic data sets (written with the repository's encoder)."""
+    gadir, info = gadata.make_generator_datasets(seed)
+    lines = []
+    for nuc in ("Se82", "Mo100", "Cd116", "Nd150"):
+        for mode, pr in ((21, "g0"), (22, "g2"), (23, "g22"), (24, "g4")):
+            q = info["%s/%s" % (nuc, pr)]["Q"]
+            # D <name> <level> <mode> <e1> <e2> <window> <Q> <budget le> <chain> <tol> <work bound>: the data set's own maximum energy sum is the bound
+            lines.append("D %s 0 %d 0 4.3 0 %.17g 0 0 0.003 %d" % (nuc, mode, q, WORK_BOUND))
+    return gadir, lines
+
+
 def main():
     chk = Check("C04", "exploration")
     quick = chk.tier == "quick"
     frac = float(arg_value("--expensive-fraction", "0.2" if quick else "1.0"))
     lines, skipped = spec_lines(chk, quick, frac)
+    gadir, glines = ga_lines(chk.seed)
+    lines += glines
+    ga_env = {"BXDECAY0_DBD_GA_DATA_DIR": gadir}
     n_iid = 1500 if quick else 100000
     n_grid = 6 if quick else 40
-    exe, recs, fails = genmon.run_specs("plain", lines, chk.seed, n_iid, n_grid, True, deep_events=30000 if quick else 5000000)
+    exe, recs, fails = genmon.run_specs("plain", lines, chk.seed, n_iid, n_grid, True, deep_events=30000 if quick else 5000000, extra_env=ga_env)
     for shard, rc, err in fails:
         chk.inconclusive_("gen_monitor shard %d exited %s: %s" % (shard, rc, err[-400:]))
     events = 0
@@ -91,12 +106,14 @@ def main():
             samples.append({"config": r["config"], **r["sample"]})
     worst.sort(reverse=True)
     # ---- reach of this workload inside the library (gcov build of the working tree; decides nothing, recorded as evidence)
-    reach, cfiles = covmon.measure_gen_monitor(lines, chk.seed, 200 if quick else 3000, 4 if quick else 12, True, deep_events=30000 if quick else 300000)
+    reach, cfiles = covmon.measure_gen_monitor(lines, chk.seed, 200 if quick else 3000, 4 if quick else 12, True, deep_events=30000 if quick else 300000, extra_env=ga_env)
     if reach["processes_failed"]:
         chk.note("coverage measurement: %d gen_monitor processes of the gcov build failed" % reach["processes_failed"])
     chk.require(reach["lines"]["percent"] >= 60.0, "the workload reached only %.1f %% of the library's lines" % reach["lines"]["percent"])
     chk.require(nb >= 69, "only %d background names generated (expected 69)" % nb)
     chk.require(nd >= 300, "only %d double-beta configurations generated" % nd)
+    nga = sum(1 for r in recs if r.get("accepted") and r.get("mode", 0) >= 21)
+    chk.require(nga == 16, "only %d of the 16 gA configurations were generated" % nga)
     chk.coverage.update({
         "evaluations": events,
         "distinct_nontrivial": distinct,
@@ -117,7 +134,8 @@ def main():
         "library_reach_gcov": reach,
     })
     chk.assumptions += ["bounded work is decided in deviates drawn per shot (cap 2e6), never in seconds",
-                        "gA modes are covered by C14 on synthetic datasets"]
+                        "gA modes 21-24 are generated on synthetic data sets (16 configurations; their kinematic bound is the data set's own maximum); "
+                        "the sampler itself is decided by C14"]
     chk.finish()
 
 
